@@ -1,7 +1,7 @@
 """C11 — class declaration order is a complete topological order; cycles are refused.
 
 E1 over all digraphs (self-loops allowed) on n <= 3 labelled classes (thorough: n = 4), every edge realised through one of
-15 dependency positions, several root sets.  Cycles are created the only way the DSL allows: assignment after class
+17 dependency positions, several root sets.  Cycles are created the only way the DSL allows: assignment after class
 creation.  Oracle (ref/topo, cross-checked with networkx): reachable sub-graph acyclic => the yielded sequence is a
 permutation of the reachable classes with every class after all its dependencies; cyclic => SchemaParseError; always
 within a call-event budget.
@@ -25,7 +25,7 @@ except Exception:  # pragma: no cover
 PROP = "C11"
 LEVEL = "model_checking"
 RULE = (
-    "exhaustive enumeration of all labelled digraphs with self-loops on n<=3 classes (2^9=512; thorough also n=4, 65536) x 15 "
+    "exhaustive enumeration of all labelled digraphs with self-loops on n<=3 classes (2^9=512; thorough also n=4, 65536) x 17 "
     "position kinds (one kind per graph) x root sets (each single class, all, reversed, a pair, a non-object wrapper; for n=3 in the quick tier: singles + all), plus all graphs with <=3 edges x all assignments of position kinds to "
     "edges (seed-rotated slice: quick 1/64, thorough 1/4 of the assignments); the real orderer is run under a call-event budget and compared with a "
     "DFS reference (cross-checked with networkx); distinct = (graph, positions, roots); non-trivial = cases whose reachable "
@@ -35,7 +35,7 @@ ASSUMPTIONS = ["distinct class names (documented assumption of the orderer)"]
 
 KINDS = [
     "properties", "additionalProperties", "patternProperties", "propertyNames", "dependencies",
-    "items", "tuple-items", "additionalItems", "contains", "anyOf", "oneOf", "allOf", "not", "nested-properties", "nested-twice",
+    "items", "tuple-items", "additionalItems", "additionalItems/single-items", "additionalItems/no-items", "contains", "anyOf", "oneOf", "allOf", "not", "nested-properties", "nested-twice",
 ]
 BUDGET = 400_000
 
@@ -63,6 +63,10 @@ def attach(src, targets_by_kind, tag):
             src.properties[name] = Property(Array([Integer(), tgt]))
         elif kind == "additionalItems":
             src.properties[name] = Property(Array([Integer()], additionalItems=tgt))
+        elif kind == "additionalItems/single-items":
+            src.properties[name] = Property(Array(String(), additionalItems=tgt))
+        elif kind == "additionalItems/no-items":
+            src.properties[name] = Property(Element(additionalItems=tgt))
         elif kind == "contains":
             src.properties[name] = Property(Element(contains=tgt))
         elif kind == "anyOf":
@@ -150,6 +154,8 @@ def root_sets(n):
     if n >= 2:
         out.append(("pair", [n - 1, 0], None))
     out.append(("wrapped0", [0], "wrap"))
+    if n >= 2:
+        out.append(("class+wrapped-other", [0, n - 1], "wrap-last"))
     return out
 
 
@@ -159,8 +165,10 @@ def judge(st, n, edges, kinds, rank, few_roots=False):
             continue
         classes = build(n, edges, kinds)
         elements = [classes[i] for i in roots]
-        if wrap:
+        if wrap == "wrap":
             elements = [Array(AnyOf(classes[roots[0]], Integer()))]
+        elif wrap == "wrap-last":
+            elements = [classes[roots[0]], Array(classes[roots[-1]])]
         case = {"n": n, "edges": edges, "kinds": kinds, "roots": rlabel}
         st.add("states")
         st.add("transitions", max(1, len(edges)))
